@@ -120,6 +120,10 @@ CandsData(s, sc) ==
         \cup (IF On(sc, "set_k:" \o kind)
          THEN {[op |-> "set_item", kind |-> kind, x |-> x, key |-> "k", val |-> v] : <<x, v>> \in X \X {"u", "v"}}
          ELSE {})
+        \cup (IF On(sc, "props:" \o kind)
+         THEN {[op |-> "mutate_props", kind |-> kind, x |-> x, val |-> "v1"] : x \in X}
+              \cup {[op |-> "set_item", kind |-> kind, x |-> x, key |-> "props", val |-> "v0"] : x \in X}
+         ELSE {})
         \cup (IF On(sc, "set_ns:" \o kind)
          THEN {[op |-> "set_item", kind |-> kind, x |-> x, key |-> "ns", val |-> v] :
                   <<x, v>> \in X \X {"DEFAULT", "EDIF", "BOGUS"}} ELSE {})
